@@ -94,16 +94,20 @@ def _cfg(typ, syntax, spec):
 
 
 def configs(typ, which):
-    """list of config dicts. which: 'full' (every syntax x every pool entry), 'mid' (every syntax x defaults plus
-    html/jsx/pug resp. css/stylus x every pool entry), 'core' (4 resp. 3 hand-picked), 'two' (first two of core)"""
+    """list of config dicts. which: 'full' (every syntax x every pool entry); 'mid' (markup: every syntax with default
+    options + html x every other pool entry + jsx and pug x 6 pool entries = 35; stylesheet: every syntax with default
+    options + css x every other pool entry = 14); 'core' (4 resp. 3 hand-picked); 'two' (first two of core);
+    'nocache' (stylesheet, 2 configurations, run without any cache dict)"""
     if typ == 'markup':
-        syn, pool, core, rich = MARKUP_SYNTAXES, MARKUP_POOL, MARKUP_CORE, ('html', 'jsx', 'pug')
+        syn, pool, core = MARKUP_SYNTAXES, MARKUP_POOL, MARKUP_CORE
+        rich = [('html', range(1, len(pool))), ('jsx', (1, 2, 3, 6, 7, 11)), ('pug', (1, 2, 3, 6, 7, 11))]
     else:
-        syn, pool, core, rich = STYLE_SYNTAXES, STYLE_POOL, STYLE_CORE, ('css', 'stylus')
+        syn, pool, core = STYLE_SYNTAXES, STYLE_POOL, STYLE_CORE
+        rich = [('css', range(1, len(pool)))]
     if which == 'full':
         return [_cfg(typ, s, p) for s in syn for p in pool]
     if which == 'mid':
-        return [_cfg(typ, s, pool[0]) for s in syn] + [_cfg(typ, s, p) for s in rich for p in pool[1:]]
+        return [_cfg(typ, s, pool[0]) for s in syn] + [_cfg(typ, s, pool[i]) for s, idx in rich for i in idx]
     if which == 'core':
         return [_cfg(typ, s, pool[i]) for s, i in core]
     if which == 'two':
@@ -189,6 +193,7 @@ def _innermost_emmet_frame(tb):
 
 _CACHES = {}
 _RANDOM_CFGS = {}
+_RETRIES = [0]
 
 
 def _with_cache(cfg):
@@ -242,11 +247,12 @@ def check_expand(abbr, cfg):
     cfg = _fresh(cfg)
     if cfg.get('type') == 'stylesheet' and cfg.pop('_cache', True):
         cfg['cache'] = {}
+    shown = json.dumps({k: v for k, v in cfg.items() if k != 'cache'}, sort_keys=True)
     r = _call(abbr, cfg)
     if r is None:
         return None
-    return '%s: expand(%r, %s) %s; allowed: str result, ScannerException or TokenScannerException with pos in 0..len' % (
-        r[0], abbr, json.dumps(cfg, sort_keys=True, default=repr), r[1])
+    return '%s: expand(%r, %s%s) %s; allowed: str result, ScannerException or TokenScannerException with pos in 0..len' % (
+        r[0], abbr, shown, ' + fresh cache dict' if 'cache' in cfg else '', r[1])
 
 
 def scan(abbr, typ, which, seed):
@@ -269,7 +275,9 @@ def scan(abbr, typ, which, seed):
         nocache = which == 'nocache'
         run_cfg = _fresh(cfg) if nocache or typ != 'stylesheet' else _with_cache(_fresh(cfg))
         r = _call(abbr, run_cfg)
-        if r is not None and typ == 'stylesheet' and not nocache:
+        if r is not None and typ == 'stylesheet' and not nocache and _RETRIES[0] < 300:
+            # confirm with a fresh cache (7 ms each: at most 300 confirmations per worker process)
+            _RETRIES[0] += 1
             r2 = _call(abbr, dict(_fresh(cfg), cache={}))
             if r2 is None or r2[0] != r[0]:
                 r = (r[0], r[1] + ' -- ONLY with a cache dict shared with earlier calls of the same configuration '
@@ -297,9 +305,9 @@ def _worker(job):
 
 def drive(clause, typ, which, abbrs, seed=0, chunk=400):
     """run `scan` over abbreviations on the process pool; per classification report the PER_CLASS shortest distinct
-    abbreviations (ties: alphabetical), each with its simplest failing configuration (shortest JSON)"""
+    abbreviations (ties: alphabetical), each with its simplest failing configuration"""
     import multiprocessing as mp
-    classes = {}      # class -> {abbr: (len(cfg json), cfg json, detail)}
+    classes = {}      # class -> {abbr: (simplicity rank of cfg, cfg json, detail)}
     counts = {}
 
     def sampled(it):
@@ -317,7 +325,8 @@ def drive(clause, typ, which, abbrs, seed=0, chunk=400):
                 counts[cls] = counts.get(cls, 0) + 1
                 per = classes.setdefault(cls, {})
                 cj = json.dumps(cfg, sort_keys=True)
-                cand = (len(cj), cj, detail)
+                # simplest configuration: fewest keys, html / css before the other syntaxes, then shortest JSON
+                cand = ((len(cfg), cfg.get('syntax') not in ('html', 'css'), len(cj)), cj, detail)
                 if abbr not in per or cand < per[abbr]:
                     per[abbr] = cand
     rows = []
@@ -404,16 +413,15 @@ def run(tier, seed):
         c.done()
         out.append(c)
 
-    nm, ns = len(ALPHA_MARKUP), len(ALPHA_STYLE)
     # --- markup, exhaustive small strings
     l_full = 2 if quick else 3
     clause('markup-exhaustive-full', 'all strings over %r' % ALPHA_MARKUP,
            'length <= %d x %d syntaxes x %d option sets (every combination)' % (l_full, len(MARKUP_SYNTAXES), len(MARKUP_POOL)),
-           'markup', 'full', strings(ALPHA_MARKUP, 0, l_full), True, chunk=40)
+           'markup', 'full', strings(ALPHA_MARKUP, 0, l_full), True, chunk=40 if quick else 200)
     l_mid = 3 if quick else 4
     clause('markup-exhaustive-mid', 'all strings over %r' % ALPHA_MARKUP,
-           'length %d x (10 syntaxes with default options + html, jsx, pug x %d option sets = %d configurations)'
-           % (l_mid, len(MARKUP_POOL) - 1, len(configs('markup', 'mid'))),
+           'length %d x %d configurations (10 syntaxes with default options + html x %d option sets + jsx, pug x 6 option sets)'
+           % (l_mid, len(configs('markup', 'mid')), len(MARKUP_POOL) - 1),
            'markup', 'mid', strings(ALPHA_MARKUP, l_mid, l_mid), True, chunk=60 if quick else 400)
     l_top = 4 if quick else 5
     clause('markup-exhaustive-long', 'all strings over %r' % ALPHA_MARKUP,
@@ -437,14 +445,20 @@ def run(tier, seed):
            '%d strings x 3 of 40 seeded random configurations (syntax, text, options, context, maxRepeat)' % n_rand,
            'markup', 'random:40', list(random_strings(MUT_MARKUP, CORPUS_MARKUP, seed, n_rand, 'markup')), False, chunk=500)
     # --- stylesheet
-    l_full = 3 if quick else 4
     clause('stylesheet-exhaustive-full', 'all strings over %r' % ALPHA_STYLE,
-           'length <= %d x %d syntaxes x %d option sets (every combination), per-configuration cache' % (l_full, len(STYLE_SYNTAXES), len(STYLE_POOL)),
-           'stylesheet', 'full', strings(ALPHA_STYLE, 0, l_full), True, chunk=100)
-    l_top = 4 if quick else 5
-    clause('stylesheet-exhaustive-long', 'all strings over %r' % ALPHA_STYLE,
-           'length %d x 3 configurations (css defaults; scss in value context; stylus with changed stylesheet.* options)' % l_top,
-           'stylesheet', 'core', strings(ALPHA_STYLE, l_top, l_top), True, chunk=1500)
+           'length <= 3 x %d syntaxes x %d option sets (every combination), per-configuration cache' % (len(STYLE_SYNTAXES), len(STYLE_POOL)),
+           'stylesheet', 'full', strings(ALPHA_STYLE, 0, 3), True, chunk=100)
+    if quick:
+        clause('stylesheet-exhaustive-long', 'all strings over %r' % ALPHA_STYLE,
+               'length 4 x 3 configurations (css defaults; scss in value context; stylus with changed stylesheet.* options)',
+               'stylesheet', 'core', strings(ALPHA_STYLE, 4, 4), True, chunk=1500)
+    else:
+        clause('stylesheet-exhaustive-mid', 'all strings over %r' % ALPHA_STYLE,
+               'length 4 x %d configurations (6 syntaxes with default options + css x %d option sets)' % (len(configs('stylesheet', 'mid')), len(STYLE_POOL) - 1),
+               'stylesheet', 'mid', strings(ALPHA_STYLE, 4, 4), True, chunk=800)
+        clause('stylesheet-exhaustive-long', 'all strings over %r' % ALPHA_STYLE,
+               'length 5 x 2 configurations (css defaults; scss in value context)',
+               'stylesheet', 'two', strings(ALPHA_STYLE, 5, 5), True, chunk=3000)
     clause('stylesheet-nocache', 'all strings over %r' % ALPHA_STYLE,
            'length <= %d x 2 configurations without any cache (css defaults, stylus in value context)' % (1 if quick else 2),
            'stylesheet', 'nocache', strings(ALPHA_STYLE, 0, 1 if quick else 2), True, chunk=2)
